@@ -55,6 +55,9 @@ mod listing {
         pub aliases: Pairs,
         /// name -> (exported, readonly, encoded value)
         pub vars: Vec<(String, bool, bool, String)>,
+        /// the same for `VariableSet::iter(Scope::Local)` (what `typeset -p`
+        /// without -g lists inside a function)
+        pub locals: Vec<(String, bool, bool, String)>,
         pub traps: Pairs,
         pub options: Pairs,
         pub umask: String,
@@ -86,6 +89,10 @@ mod listing {
             s.vars.push((name.to_string(), var.is_exported, var.is_read_only(), enc_value(&var.value)));
         }
         s.vars.sort();
+        for (name, var) in env.variables.iter(Scope::Local) {
+            s.locals.push((name.to_string(), var.is_exported, var.is_read_only(), enc_value(&var.value)));
+        }
+        s.locals.sort();
         for (cond, state, _) in env.traps.iter() {
             let action = match &state.action {
                 Action::Default => continue,
@@ -108,10 +115,29 @@ mod listing {
         s
     }
 
+    thread_local! {
+        static SNAPS: RefCell<Vec<Snap>> = const { RefCell::new(Vec::new()) };
+    }
+
+    /// `snap`: a probe built-in that reads the state of the environment through
+    /// the API at the moment it runs (inside a function, a subshell, ...).
+    fn snap_main(env: &mut VEnv, _args: Vec<yash_env::semantics::Field>) -> vsh::BuiltinFuture<'_> {
+        Box::pin(async move {
+            let s = snapshot(env);
+            SNAPS.with(|v| v.borrow_mut().push(s));
+            yash_env::semantics::ExitStatus::SUCCESS.into()
+        })
+    }
+
+    pub fn snaps_take() -> Vec<Snap> {
+        SNAPS.with(|v| std::mem::take(&mut *v.borrow_mut()))
+    }
+
     /// `yash -c SCRIPT` on the simulated OS; returns the outcome and the final
     /// state of the shell environment.
     pub fn run_capture(script: &str) -> (Outcome, Option<Snap>) {
         vsh::trace_take();
+        snaps_take();
         let script = script.to_string();
         let r = std::panic::catch_unwind(std::panic::AssertUnwindSafe(move || {
             vsh::drive(
@@ -127,6 +153,10 @@ mod listing {
                         };
                         let work = configure_environment(&mut env, run).await;
                         vsh::install_probes(&mut env);
+                        env.builtins.insert(
+                            "snap",
+                            yash_env::builtin::Builtin::new(yash_env::builtin::Type::Mandatory, snap_main),
+                        );
                         env.variables.get_or_new("HOME", Scope::Global).assign("/h", None).unwrap();
                         let ref_env = RefCell::new(&mut env);
                         let lexer = match prepare_input(&ref_env, &work.source).await {
@@ -340,6 +370,173 @@ mod listing {
         emit(w, kind, label, defs, &printed, &script_b, &before, &after, tags);
     }
 
+    /// Like [`round_trip`], but the listing command runs inside `wrap(cmd)`
+    /// (a function body, a subshell, ...) which calls `snap` right after it:
+    /// the expected content is the state at that moment.  `proj_a` projects
+    /// that snapshot, `proj_b` the final state of the fresh shell B (given
+    /// the expectation, to restrict B's state where the listing is partial).
+    #[allow(clippy::too_many_arguments)]
+    fn round_trip_scoped(
+        w: &mut CasesWriter,
+        kind: u64,
+        label: &str,
+        defs: &str,
+        wrapped: &str,
+        eval_of: impl Fn(&str) -> String,
+        proj_a: impl Fn(&Snap) -> Pairs,
+        proj_b: impl Fn(&Snap, &Pairs) -> Pairs,
+        tags: &[&str],
+    ) {
+        let (oa, _) = run_capture(&format!("{defs}\n{wrapped}\nargs __listing_done__\n"));
+        let snaps = snaps_take();
+        if !oa.trace.iter().any(|t| t.args == ["__listing_done__"]) || snaps.len() != 1 {
+            w.count(&format!("listing:{label}:shell-A-aborted"));
+            return;
+        }
+        let printed = oa.stdout.clone();
+        let script_b = eval_of(&printed);
+        let (_ob, sb) = run_capture(&script_b);
+        let before = proj_a(&snaps[0]);
+        let after = match sb {
+            Some(sb) => proj_b(&sb, &before),
+            None => vec![("<shell B panicked or did not finish>".into(), String::new())],
+        };
+        let all_defs = format!("{defs}\n{wrapped}");
+        emit(w, kind, label, &all_defs, &printed, &script_b, &before, &after, tags);
+    }
+
+    fn proj_of(list: &[(String, bool, bool, String)], filter: impl Fn(&(String, bool, bool, String)) -> bool, with_attrs: bool) -> Pairs {
+        list.iter()
+            .filter(|v| !v.0.contains('=') && filter(v))
+            .map(|v| {
+                let attrs = if with_attrs {
+                    format!("{}{}|", if v.1 { "x" } else { "" }, if v.2 { "r" } else { "" })
+                } else {
+                    String::new()
+                };
+                (v.0.clone(), format!("{attrs}{}", v.3))
+            })
+            .collect()
+    }
+
+    /// Names of the variables a fresh shell has.
+    fn baseline_names() -> Vec<String> {
+        let (_, s) = run_capture(":\n");
+        s.map(|s| s.vars.into_iter().map(|v| v.0).collect()).unwrap_or_default()
+    }
+
+    /// Declarations of local variables for a function body: new names, names
+    /// that hide globals, with and without attributes.
+    fn local_decls(r: &mut Rng) -> String {
+        let mut o = String::new();
+        for _ in 0..r.below(4) {
+            let name = if r.chance(1, 2) { r.pick(IDENTS).to_string() } else { r.pick(&["l1", "l2", "loc"]).to_string() };
+            let v = random_string(r, 8);
+            let opt = *r.pick(&["", "", "-x ", "-r ", "-x -r "]);
+            if r.chance(1, 6) {
+                o.push_str(&format!("typeset {opt}{name}; "));
+            } else {
+                o.push_str(&format!("typeset {opt}{}; ", sq(&format!("{name}={v}"))));
+            }
+        }
+        o
+    }
+
+    /// The scope the listing command runs in.  Returns (label suffix, script).
+    fn wrap_cmd(r: &mut Rng, cmd: &str, allow_subshell: bool) -> (&'static str, String) {
+        match r.below(if allow_subshell { 7 } else { 5 }) {
+            0 => ("top", format!("{cmd}\nsnap")),
+            1 => ("function", format!("f() {{ {cmd}; snap; }}\nf")),
+            2 => {
+                let l = local_decls(r);
+                ("function+locals", format!("f() {{ {l}{cmd}; snap; }}\nf"))
+            }
+            3 => {
+                let l1 = local_decls(r);
+                let l2 = local_decls(r);
+                ("nested-functions", format!("f() {{ {l1}{cmd}; snap; }}\ng() {{ {l2}f; }}\ng"))
+            }
+            4 => ("brace/eval", format!("{{ eval {}; snap; }}", sq(cmd))),
+            5 => ("subshell", format!("({cmd}; snap)")),
+            _ => {
+                let l = local_decls(r);
+                ("function+subshell", format!("f() {{ {l}({cmd}; snap); }}\nf"))
+            }
+        }
+    }
+
+    /// The variable listings from inside a scope.
+    fn scoped_variable_case(
+        w: &mut CasesWriter,
+        r: &mut Rng,
+        which: usize,
+        defs: &str,
+        baseline: &[String],
+        fixed: Option<(&'static str, &str, &str)>, // (scope label, wrapper with @CMD@, NAME)
+    ) {
+        // the scope first (as a template), so that a NAME that exists there can be chosen
+        let (scope, template): (&'static str, String) = match fixed {
+            Some((l, tpl, _)) => (l, tpl.to_string()),
+            None => wrap_cmd(r, "@CMD@", true),
+        };
+        let name = match fixed {
+            Some((_, _, n)) => n.to_string(),
+            None if which >= 5 => {
+                // mostly a name for which the listing prints something
+                run_capture(&format!("{defs}\n{}\n", template.replace("@CMD@", ":")));
+                let snaps = snaps_take();
+                let cands: Vec<String> = match snaps.first() {
+                    Some(s) => match which {
+                        5 => s.vars.iter().filter(|v| v.1).map(|v| v.0.clone()).collect(),
+                        6 => s.vars.iter().filter(|v| v.2).map(|v| v.0.clone()).collect(),
+                        _ => s.locals.iter().map(|v| v.0.clone()).collect(),
+                    },
+                    None => vec![],
+                };
+                let cands: Vec<String> = cands.into_iter().filter(|n| is_name(n)).collect();
+                if cands.is_empty() || r.chance(1, 8) { r.pick(IDENTS).to_string() } else { r.pick(&cands).clone() }
+            }
+            None => r.pick(IDENTS).to_string(),
+        };
+        let (cmd, kind): (String, u64) = match which {
+            0 => ("export -p".into(), 3),
+            1 => ("readonly -p".into(), 4),
+            2 => ("set".into(), 11),
+            3 => ("typeset -p".into(), 12),
+            4 => ("typeset -gp".into(), 5),
+            5 => (format!("export -p {name}"), 13),
+            6 => (format!("readonly -p {name}"), 13),
+            _ => (format!("typeset -p {name}"), 13),
+        };
+        let wrapped = template.replace("@CMD@", &cmd);
+        let label = format!("{} [{scope}]", if which >= 5 { cmd.rsplit_once(' ').unwrap().0.to_string() + " NAME" } else { cmd.clone() });
+        let base: Vec<String> = baseline.to_vec();
+        let nm = name.clone();
+        match which {
+            0 => round_trip_scoped(w, kind, &label, defs, &wrapped, |p| p.to_string(),
+                |s| proj_of(&s.vars, |v| v.1, false), |s, _| proj_of(&s.vars, |v| v.1, false), &[]),
+            1 => round_trip_scoped(w, kind, &label, defs, &wrapped, |p| p.to_string(),
+                |s| proj_of(&s.vars, |v| v.2, false), |s, _| proj_of(&s.vars, |v| v.2, false), &[]),
+            2 => round_trip_scoped(w, kind, &label, defs, &wrapped, |p| p.to_string(),
+                |s| proj_of(&s.vars, |v| is_name(&v.0) && !v.3.starts_with('N'), false),
+                |s, _| proj_of(&s.vars, |v| is_name(&v.0) && !v.3.starts_with('N'), false), &[]),
+            3 => round_trip_scoped(w, kind, &label, defs, &wrapped, |p| p.to_string(),
+                |s| proj_of(&s.locals, |_| true, true),
+                move |s, before| proj_of(&s.vars, |v| !base.contains(&v.0) || before.iter().any(|b| b.0 == v.0), true), &[]),
+            4 => round_trip_scoped(w, kind, &label, defs, &wrapped, |p| p.to_string(),
+                |s| proj_of(&s.vars, |_| true, true), |s, _| proj_of(&s.vars, |_| true, true), &[]),
+            5 => round_trip_scoped(w, kind, &label, defs, &wrapped, |p| p.to_string(),
+                |s| proj_of(&s.vars, |v| v.0 == nm && v.1, false),
+                |s, _| proj_of(&s.vars, |v| v.0 == name && v.1, false), &[]),
+            6 => round_trip_scoped(w, kind, &label, defs, &wrapped, |p| p.to_string(),
+                |s| proj_of(&s.vars, |v| v.0 == nm && v.2, false),
+                |s, _| proj_of(&s.vars, |v| v.0 == name && v.2, false), &[]),
+            _ => round_trip_scoped(w, kind, &label, defs, &wrapped, |p| p.to_string(),
+                |s| proj_of(&s.locals, |v| v.0 == nm, true),
+                |s, _| proj_of(&s.vars, |v| v.0 == name, true), &[]),
+        }
+    }
+
     fn var_defs(r: &mut Rng, odd_names: bool) -> String {
         let mut defs = String::new();
         let mut frozen: Vec<String> = vec![];
@@ -418,6 +615,84 @@ mod listing {
         if f17 {
             round_trip(w, 9, "typeset -fp", "'if'() { args 1; }\n", "typeset -fp", |p| p.to_string(),
                 |s| s.functions.clone(), &["F17"]);
+        }
+
+        // ---- listings from inside a function (hand-written) ---------------------
+        let baseline = baseline_names();
+        let gdefs = "export E=1 'e f=3' H=glob\nreadonly R=2\nexport XR=5; readonly XR\nx=plain\narr=(1 '' 'a b')\ntypeset -x NOVAL\n";
+        let with_locals = "f() { typeset loc=L; typeset -x lx='L X'; typeset -r lr=LR; typeset H=hidden; typeset -x x=lx2; typeset -x -r lxr=1; @CMD@; snap; }\nf";
+        let plain_fn = "f() { @CMD@; snap; }\nf";
+        let nested = "f() { typeset inner=I; @CMD@; snap; }\ng() { typeset -x outer=O; typeset E=shadow; f; }\ng";
+        for which in 0..8 {
+            let name = match which { 5 => "E", 6 => "R", _ => "loc" };
+            scoped_variable_case(w, r, which, gdefs, &baseline, Some(("function", plain_fn, name)));
+            scoped_variable_case(w, r, which, gdefs, &baseline, Some(("function+locals", with_locals, name)));
+            scoped_variable_case(w, r, which, gdefs, &baseline, Some(("nested-functions", nested, name)));
+        }
+        scoped_variable_case(w, r, 5, gdefs, &baseline, Some(("function+locals", with_locals, "lx")));
+        scoped_variable_case(w, r, 5, gdefs, &baseline, Some(("function+locals", with_locals, "XR")));
+        scoped_variable_case(w, r, 6, gdefs, &baseline, Some(("function+locals", with_locals, "lr")));
+        scoped_variable_case(w, r, 6, gdefs, &baseline, Some(("function+locals", with_locals, "XR")));
+        scoped_variable_case(w, r, 7, gdefs, &baseline, Some(("function+locals", with_locals, "H")));
+        scoped_variable_case(w, r, 7, gdefs, &baseline, Some(("function+locals", with_locals, "E")));
+
+        // ---- listings from inside a scope (random) ----------------------------------
+        let n = args.scale(200, 1000);
+        for k in 0..n {
+            let mut r = r.fork(0x5c0 + k as u64);
+            match k % 13 {
+                which @ 0..=7 => {
+                    let defs = var_defs(&mut r, which == 0 || which == 1 || which == 3 || which == 4);
+                    scoped_variable_case(w, &mut r, which, &defs, &baseline, None);
+                }
+                8 => {
+                    let mut defs = String::new();
+                    for _ in 0..1 + r.below(3) {
+                        let name = r.pick(IDENTS).to_string();
+                        let value = random_string(&mut r, 10);
+                        defs.push_str(&format!("alias {}\n", sq(&format!("{name}={value}"))));
+                    }
+                    let (scope, wrapped) = wrap_cmd(&mut r, "alias", true);
+                    round_trip_scoped(w, 0, &format!("alias [{scope}]"), &defs, &wrapped,
+                        |printed| format!("alias -- {}\n", split_entries(printed).join(" ")),
+                        |s| s.aliases.clone(), |s, _| s.aliases.clone(), &[]);
+                }
+                9 => {
+                    let mut defs = String::new();
+                    for _ in 0..1 + r.below(3) {
+                        let cond = *r.pick(&["INT", "TERM", "HUP", "USR1", "QUIT", "USR2"]);
+                        defs.push_str(&format!("trap -- {} {cond}\n", sq(&random_string(&mut r, 10))));
+                    }
+                    let (scope, wrapped) = wrap_cmd(&mut r, "trap", false);
+                    round_trip_scoped(w, 2, &format!("trap [{scope}]"), &defs, &wrapped, |p| p.to_string(),
+                        |s| s.traps.clone(), |s, _| s.traps.clone(), &[]);
+                }
+                10 => {
+                    let o = *r.pick(&["allexport", "noclobber", "noglob", "nounset", "pipefail", "notify"]);
+                    let (scope, wrapped) = wrap_cmd(&mut r, "set +o", true);
+                    round_trip_scoped(w, 6, &format!("set +o [{scope}]"), &format!("set -o {o}\n"), &wrapped,
+                        |p| p.to_string(), |s| s.options.clone(), |s, _| s.options.clone(), &[]);
+                }
+                11 => {
+                    let mask = r.below(0o1000);
+                    let cmd = *r.pick(&["umask", "umask -S"]);
+                    let (scope, wrapped) = wrap_cmd(&mut r, cmd, true);
+                    round_trip_scoped(w, 7, &format!("{cmd} [{scope}]"), &format!("umask {mask:o}\n"), &wrapped,
+                        |p| format!("umask {p}"), |s| vec![("umask".into(), s.umask.clone())],
+                        |s, _| vec![("umask".into(), s.umask.clone())], &[]);
+                }
+                _ => {
+                    let mut defs = String::new();
+                    for _ in 0..1 + r.below(3) {
+                        let name = r.pick(&["h1", "h2", "a.b", "-f", "zz"]).to_string();
+                        defs.push_str(&format!("{}() {}\n", sq(&name), r.pick(FUNC_BODIES)));
+                    }
+                    // the wrapper function f itself is part of the listing: both sides see it
+                    let (scope, wrapped) = wrap_cmd(&mut r, "typeset -fp", true);
+                    round_trip_scoped(w, 9, &format!("typeset -fp [{scope}]"), &defs, &wrapped, |p| p.to_string(),
+                        |s| s.functions.clone(), |s, _| s.functions.clone(), &[]);
+                }
+            }
         }
 
         let n = args.scale(160, 1000);
@@ -1030,17 +1305,11 @@ fn pair_is_f8(n: &str, v: &str) -> bool {
     qn == n && qv == v && n.contains('[') && v.contains(']')
 }
 
-/// Is the finding registered in /verif/known_findings.json (or forced by
-/// `--opt findings=1`)?  Only then the cases that exhibit it are emitted.
-fn finding_enabled(args: &Args, tag: &str) -> bool {
-    if let Some(v) = args.opt("findings") {
-        return v == "1";
-    }
-    let root = std::env::var("YV_ROOT").unwrap_or_else(|_| "/verif".into());
-    match std::fs::read_to_string(format!("{root}/known_findings.json")) {
-        Ok(t) => t.contains(&format!("\"tag\": \"{tag}\"")) || t.contains(&format!("\"tag\":\"{tag}\"")),
-        Err(_) => false,
-    }
+/// The cases that exhibit a registered finding are always emitted (tagged);
+/// the driver alone decides between KNOWN-FINDING and VIOLATION.
+/// (`--opt findings=0` leaves them out, for experiments.)
+fn finding_enabled(args: &Args, _tag: &str) -> bool {
+    args.opt("findings") != Some("0")
 }
 
 fn main() {
